@@ -70,3 +70,67 @@ Proof.
               ((m_max_size m =? 0) || (uint32 (n + blen (enc_user (p_user p)) + 1) <? m_max_size m)));
       [|reflexivity]. rewrite app_nil_r, fold_users. reflexivity.
 Qed.
+
+Ltac split_and :=
+  repeat match goal with
+  | H : _ && _ = true |- _ => apply andb_prop in H; destruct H
+  end.
+
+Lemma beq_bytes_eq' a : forall b, beq_bytes a b = true -> a = b.
+Proof.
+  induction a as [|x a IH]; destruct b as [|y b]; cbn [beq_bytes]; intro H; try discriminate; [reflexivity|].
+  apply andb_prop in H. destruct H as [H1 H2]. apply N.eqb_eq in H1. subst y. f_equal. apply IH. exact H2.
+Qed.
+
+Theorem norm_preserves pk rem : wf_packet pk = true ->
+  let q := norm pk rem in
+  pk_version q = pk_version pk /\
+  fh_type (pk_fh q) = fh_type (pk_fh pk) /\ fh_qos (pk_fh q) = fh_qos (pk_fh pk) /\
+  fh_dup (pk_fh q) = fh_dup (pk_fh pk) /\ fh_retain (pk_fh q) = fh_retain (pk_fh pk) /\
+  fh_remaining (pk_fh q) = rem /\
+  same_fields pk q /\
+  ((pk_version pk = 5 \/ fh_type (pk_fh pk) = 15) -> fh_type (pk_fh pk) <> 12 -> fh_type (pk_fh pk) <> 13 ->
+   exists n, pk_props q = norm_props (fh_type (pk_fh pk)) (pk_mods pk) (pk_props pk) n).
+Proof.
+  intro W. cbv zeta.
+  assert (T : 1 <= fh_type (pk_fh pk) <= 15).
+  { unfold wf_packet in W. cbv zeta in W. split_and. lia. }
+  remember (fh_type (pk_fh pk)) as ty eqn:Ety. symmetry in Ety.
+  assert (C : ty = 1 \/ ty = 2 \/ ty = 3 \/ ty = 4 \/ ty = 5 \/ ty = 6 \/ ty = 7 \/ ty = 8 \/ ty = 9 \/
+              ty = 10 \/ ty = 11 \/ ty = 12 \/ ty = 13 \/ ty = 14 \/ ty = 15) by lia.
+  unfold wf_packet in W. rewrite Ety in W. cbv zeta in W.
+  unfold same_fields, norm, abs. rewrite Ety.
+  destruct C as [->|[->|[->|[->|[->|[->|[->|[->|[->|[->|[->|[->|[->|[->| ->]]]]]]]]]]]]]]; split_and.
+  all: repeat match goal with Hx : context [N.eqb (Npos ?a) (Npos ?b)] |- _ =>
+         let r := eval vm_compute in (N.eqb (Npos a) (Npos b)) in change (N.eqb (Npos a) (Npos b)) with r in Hx end.
+  all: cbv iota in *; cbn [orb] in *; split_and.
+  all: try (destruct (fh_dup (pk_fh pk)); [discriminate|]).
+  all: try (destruct (fh_retain (pk_fh pk)); [discriminate|]).
+  all: cbn [expected ack_type ack_kind_of]; pkred.
+  all: repeat match goal with |- _ /\ _ => split end.
+  all: try (intros; match goal with |- ?a = ?a => reflexivity end).
+  all: try (match goal with |- _ = _ => fail 1 | |- _ -> _ => fail 1 | |- _ => lia end).
+  all: try (intros [E5|E5] _ _; [|discriminate E5]; rewrite E5; change (5 =? 5) with true; cbv iota;
+            eexists; apply props_of_entries).
+  all: try (intros _ _ _; eexists; apply props_of_entries).
+  all: try (intros E5; rewrite E5; change (5 =? 5) with true; cbv iota; match goal with |- ?a = ?a => reflexivity end).
+  all: try (match goal with |- _ = fh_qos _ => lia end).
+  all: try (intros _ Hc1 Hc2; exfalso; first [apply Hc1; reflexivity | apply Hc2; reflexivity]).
+  all: unfold codes_of.
+  all: try (match goal with |- ?a = ?a => reflexivity end).
+  all: try (intros E5; rewrite E5; change (5 =? 5) with true; cbv iota; match goal with |- ?a = ?a => reflexivity end).
+  all: try (intro Hq; replace (0 <? fh_qos (pk_fh pk)) with true by lia; reflexivity).
+  all: try (rewrite !map_map; apply map_ext; intro s0; destruct (pk_version pk =? 5); reflexivity).
+  all: try (intros E5; rewrite E5; change (5 =? 5) with true; cbv iota; repeat split; rewrite !map_map; apply map_ext; intro s0; reflexivity).
+  all: connred.
+  all: try (match goal with |- ?a = ?a => reflexivity end).
+  all: first
+    [ symmetry; apply beq_bytes_eq'; assumption
+    | destruct (c_will_flag (pk_connect pk)); reflexivity
+    | destruct (c_username_flag (pk_connect pk)); reflexivity
+    | destruct (c_password_flag (pk_connect pk)); reflexivity
+    | intro Hwf; rewrite Hwf; cbn [will_topic will_payload will_qos will_retain will_props];
+      repeat split; intro E5; rewrite E5; change (5 =? 5) with true; cbv iota; apply props_of_entries
+    | intro Hf; rewrite Hf; reflexivity
+    | idtac ].
+Qed.
